@@ -4,8 +4,8 @@
 
      reset    {sig, decls}       a new history: a signature (built through the public constructors) and
                                  the declared memory regions
-     print    {reparsed}         Some(signature the printed text parses back to; the three routes
-                                 from_str / pragma map / program text agree) or None        (C31 verdict)
+     print    {reparsed}         Some(signature the printed text parses back to; the two routes
+                                 from_str / pragma map agree) or None                       (C31 verdict)
      lex      {tokens}           the printed text, tokenized by the harness             (Strict only)
      call     {args, ok, judged} Call::resolve_arguments against (sig, decls): Ok or Err    (C31 verdict;
                                  judged = FALSE for calls with a bare region name in a scalar slot, which
